@@ -17,8 +17,7 @@ RULE = (
     "miter joins) + tau from the path, or only near segments lying wholly in off-intervals; otherwise unknown and "
     "skipped; tau = 0.25 user units for curved paths (Skia's stroker resolution) + 0.1% of the viewBox); differential "
     "render of source and converted document comparing paint stack (stroke paint directly above the fill) and "
-    "composited colour (opacities) at mutually trusted points. Non-trivial = a stroked shape is rendered and >= 10 "
-    "trusted points are definitely inside a stroke and >= 10 covered/uncovered trusted points exist; distinct = distinct source text."
+    "composited colour (opacities) at mutually trusted points. Non-trivial = the source has a stroked shape (own or inherited stroke), >= 30 mutually trusted points and >= 10 of them covered; distinct = distinct source text."
 )
 ASSUMPTIONS = [
     "vlib/refsvg/stroke3.py three-valued stroke model (self-tested); zero-length subpaths (dots) are unknown zones",
